@@ -38,9 +38,10 @@ var (
 	outDir = flag.String("out", "", "output directory")
 	goBin  = flag.String("go", "go", "go binary")
 	noChan = flag.Bool("nochan", false, "only rewrite imports and go statements")
+	noMap  = flag.Bool("nomap", false, "do not rewrite map ranges")
 )
 
-type stats struct{ imports, gos, chanPoints, selects, ranges, deferClose int }
+type stats struct{ imports, gos, chanPoints, selects, ranges, deferClose, mapRanges int }
 
 func die(format string, a ...any) {
 	fmt.Fprintf(os.Stderr, "vinstr: "+format+"\n", a...)
@@ -144,11 +145,12 @@ func main() {
 			total.selects += in.st.selects
 			total.ranges += in.st.ranges
 			total.deferClose += in.st.deferClose
+			total.mapRanges += in.st.mapRanges
 		}
 		report = append(report, fmt.Sprintf("%s: %d files", pd, len(files)))
 	}
 	b, _ := json.MarshalIndent(map[string]any{"Replace": overlay, "stats": map[string]int{
-		"imports": total.imports, "go_stmts": total.gos, "chan_points": total.chanPoints, "selects": total.selects, "chan_ranges": total.ranges, "defer_close": total.deferClose}, "packages": report}, "", " ")
+		"imports": total.imports, "go_stmts": total.gos, "chan_points": total.chanPoints, "selects": total.selects, "chan_ranges": total.ranges, "defer_close": total.deferClose, "map_ranges": total.mapRanges}, "packages": report}, "", " ")
 	if err := os.WriteFile(filepath.Join(*outDir, "overlay.json"), b, 0o644); err != nil {
 		die("write overlay: %v", err)
 	}
@@ -366,6 +368,14 @@ func (in *instr) stmt(s ast.Stmt) []ast.Stmt {
 				v.Stmt = loop
 				return []ast.Stmt{&ast.BlockStmt{List: append(pre, v)}}
 			}
+			if in.isMapRange(inner) && !*noMap {
+				in.funcLitsIn(inner.X)
+				in.block(inner.Body)
+				blk := in.mapRange(inner)[0].(*ast.BlockStmt)
+				v.Stmt = blk.List[len(blk.List)-1]
+				blk.List[len(blk.List)-1] = v
+				return []ast.Stmt{blk}
+			}
 		}
 		r := in.stmt(v.Stmt)
 		if len(r) == 1 {
@@ -393,6 +403,9 @@ func (in *instr) stmt(s ast.Stmt) []ast.Stmt {
 		}
 		in.funcLitsIn(v.X)
 		in.block(v.Body)
+		if in.isMapRange(v) && !*noMap {
+			return in.mapRange(v)
+		}
 		return []ast.Stmt{v}
 	case *ast.ForStmt:
 		if !*noChan && (in.hasChanOp(v.Cond) || in.hasChanOp(v.Post)) {
@@ -504,6 +517,57 @@ func (in *instr) isChanRange(r *ast.RangeStmt) bool {
 	}
 	_, isChan := tv.Type.Underlying().(*types.Chan)
 	return isChan
+}
+
+func (in *instr) isMapRange(r *ast.RangeStmt) bool {
+	tv, ok := in.info.Types[r.X]
+	if !ok || tv.Type == nil {
+		return false
+	}
+	_, isMap := tv.Type.Underlying().(*types.Map)
+	if !isMap {
+		return false
+	}
+	if r.Tok != token.DEFINE && (r.Key != nil || r.Value != nil) {
+		return false // assignment form: left native
+	}
+	return true
+}
+
+func isBlank(e ast.Expr) bool {
+	id, ok := e.(*ast.Ident)
+	return e == nil || (ok && id.Name == "_")
+}
+
+// mapRange turns `for k, v := range m {B}` into
+//   m__ := m; for _, k := range vsched.MapKeys(m__) { v, ok := m__[k]; if !ok {continue}; B }
+// (labels on the statement are kept by the caller since the result's last
+// statement is the loop).
+func (in *instr) mapRange(r *ast.RangeStmt) []ast.Stmt {
+	in.st.mapRanges++
+	in.needSched = true
+	m := in.newTmp("vm")
+	key := in.newTmp("vkey")
+	userKey := !isBlank(r.Key)
+	if userKey {
+		key = in.src(r.Key)
+	}
+	var head string
+	if !isBlank(r.Value) {
+		ok := in.newTmp("vok")
+		head = fmt.Sprintf("%s, %s := %s[%s]\nif !%s { continue }", in.src(r.Value), ok, m, key, ok)
+	} else {
+		ok := in.newTmp("vok")
+		head = fmt.Sprintf("_, %s := %s[%s]\nif !%s { continue }", ok, m, key, ok)
+	}
+	code := fmt.Sprintf("%s := %s\nfor _, %s := range %s.MapKeys(%s) {\n%s\n}", m, in.src(r.X), key, schedName, m, head)
+	st := in.parseStmts(code, r)
+	loop := st[1].(*ast.RangeStmt)
+	loop.Body.List = append(loop.Body.List, r.Body.List...)
+	if !userKey {
+		// key temp is used by the lookup, fine
+	}
+	return []ast.Stmt{&ast.BlockStmt{List: st}}
 }
 
 // chanRange turns `for v := range ch {B}` into
